@@ -299,6 +299,76 @@ public:
          }
       }
       plan[ "faults"] = faults;
+
+      // swarm: two arrangements that the independent draws above produce too rarely
+      Rng  sw( seed, "swarm");
+      const unsigned  arrangement = static_cast< unsigned>( sw.below( 12));
+      if (arrangement == 0 && !plan.has( "recipe2") && plan.geti( "value_handler", 0) == 0)
+      {
+         // files that name files: a source names the argument file, the
+         // argument file names itself, the other file, a missing one
+         plan[ "arg_file_arg"] = true;
+         static const char* const  via[] = { "argv", "env", "file" };
+         const std::string  how = via[ sw.below( 3)];
+         static const char* const  targets[] = { "/simfs/cfg/args.txt", "/simfs/cfg/args.txt", "/simfs/home/u/.progargs/prog.pa",
+                                                 "/simfs/cfg/none.txt" };
+         std::string  inner;
+         const size_t  nl = 1 + static_cast< size_t>( sw.below( 3));
+         for (size_t l = 0; l < nl; ++l)
+            inner += std::string( sw.chance( 1, 4) ? "--arg-file=" : "--arg-file ") + targets[ sw.below( 4)] + "\n";
+         Json  af = Json::object();
+         af[ "mode"] = "present";
+         af[ "text"] = inner;
+         plan[ "argfile"] = af;
+         if (how == "argv")
+         {
+            Json  w2 = Json::array();
+            w2.push( "--arg-file"); w2.push( "/simfs/cfg/args.txt");
+            plan[ "words"] = w2;
+         } else if (how == "env")
+         {
+            Json  e = Json::object();
+            e[ "mode"] = "set";
+            e[ "text"] = "--arg-file /simfs/cfg/args.txt";
+            plan[ "env"] = e;
+            Json  fl2 = plan.get( "flags");
+            fl2.push( "hfEnvVarArgs");
+            plan[ "flags"] = fl2;
+            plan[ "named_env"] = sw.chance( 1, 2);
+         } else
+         {
+            Json  f = Json::object();
+            f[ "mode"] = "present";
+            f[ "text"] = "--arg-file /simfs/cfg/args.txt\n";
+            plan[ "file"] = f;
+            Json  fl2 = plan.get( "flags");
+            fl2.push( "hfReadProgArg");
+            plan[ "flags"] = fl2;
+            plan[ "argv0"] = sw.chance( 1, 2) ? "/opt/tools/prog" : "prog";
+         }
+      } else if (arrangement == 1 && !plan.has( "recipe2") && plan.geti( "value_handler", 0) == 0)
+      {
+         // usage of long values: a string destination gets a text block, then
+         // the usage (or the help for that argument) is asked for
+         Json  r = plan.get( "recipe");
+         if (!recipes::has( r, "R2")) { Json sets = r.get( "sets"); sets.push( "R2"); r[ "sets"] = sets; plan[ "recipe"] = r; }
+         Json  fl2 = Json::array();
+         fl2.push( "hfHelpShort"); fl2.push( "hfHelpLong"); fl2.push( "hfHelpArg"); fl2.push( "hfHelpArgFull");
+         if (sw.chance( 1, 2)) fl2.push( "hfUsageLong");
+         plan[ "flags"] = fl2;
+         Json  w2 = Json::array();
+         w2.push( sw.chance( 1, 2) ? "-s" : "--str");
+         w2.push( "x\n" + recipes::genTextBlock( sw, ""));
+         if (sw.chance( 1, 2)) { w2.push( "-i"); w2.push( "5"); }
+         switch (sw.below( 4))
+         {
+         case 0: w2.push( "-h"); break;
+         case 1: w2.push( "--help"); break;
+         case 2: w2.push( "--help-arg"); w2.push( sw.chance( 1, 2) ? "s" : "str"); break;
+         default: w2.push( "--help-arg-full"); w2.push( "s"); break;
+         }
+         plan[ "words"] = w2;
+      }
       return plan;
    }
 
